@@ -440,6 +440,14 @@ def check (s : Scn) (t : ITrace) (cgMode : Bool := false) : List String := Id.ru
           v := v ++ [if exp == "add-failed" then "C13.failed_add_leaves_nothing" else "C13.added_count"]
     let act := Ref.activeAfter s done
     let exp := Ref.order s act
+    -- how often each detector ran against how often the reference semantics says it runs (every enabled ruleset, base or
+    -- drop-in copy, exactly once; with ruleset-cgroup bases: once per matching cgroup that passes the filter - the generated
+    -- trees have exactly one such cgroup).  Named for the passes of C02 and C11 on this engine.
+    let cntOf (l : List Nat) (x : Nat) := (l.filter (· == x)).length
+    let exD := exp.flatMap (·.dets)
+    let gotD := detSeq evs
+    if (exD ++ gotD).eraseDups.any fun d => cntOf exD d != cntOf gotD d then
+      v := v ++ [if cgMode then "C11.dropin_world_once_per_matching_cgroup" else "C02.enabled_rulesets_run_exactly_once"]
     if detSeq evs != exp.flatMap (·.dets) then
       if (Ref.masks s.base.length).any fun m => detSeq evs == (Ref.orderWith s act (some m)).flatMap (·.dets) then
         v := v ++ ["C13.enabled_iff"]
@@ -513,9 +521,10 @@ def handle (j : Json) : Json :=
       else (true, [])
     let accepts := m == impl && twinOk.1
     -- the scenario's `prop` says whose clauses decide `holds` (C13 by default; C02 runs this engine as a second pass)
-    let viol := if jstr sc "prop" == "C02" then checkC02 impl
+    let viol := if jstr sc "prop" == "C02" then checkC02 impl ++ (check s impl cgMode).filter (·.startsWith "C02.")
       else if jstr sc "prop" == "C06" then (check s impl cgMode).filter (·.startsWith "C06.")
-      else ((check s impl cgMode ++ twinOk.2).eraseDups).filter (fun c => !c.startsWith "C06.")
+      else if jstr sc "prop" == "C11" then (check s impl cgMode).filter (·.startsWith "C11.")
+      else ((check s impl cgMode ++ twinOk.2).eraseDups).filter (fun c => c.startsWith "C13." || c.startsWith "trace.")
     let firstDiff := ((m.ticks.zip impl.ticks).findIdx? fun (a, b) => a != b).getD (min m.ticks.length impl.ticks.length)
     verdict id accepts viol.isEmpty viol ""
       [("first_diff_tick", firstDiff),
